@@ -11,6 +11,7 @@ import (
 	"go/token"
 	"math/rand"
 	"os"
+	"os/exec"
 	"path/filepath"
 	"sort"
 	"strconv"
@@ -53,6 +54,9 @@ func (t *TraceWriter) Emit(r Rec) {
 
 // Distinct counts key once under the named counter.
 func (t *TraceWriter) Distinct(counter, key string) {
+	if len(key) > 64 {
+		key = Hash([]byte(key))
+	}
 	k := counter + "\x00" + key
 	if !t.seen[k] {
 		t.seen[k] = true
@@ -247,3 +251,126 @@ func sortedKeys(m map[string]bool) []string {
 }
 
 var _ = ast.Inspect
+
+// ---------------------------------------------------------------------------------------------------
+// Crash containment.  A change to the library can make it die in a way Go cannot recover from (a statement that ends up
+// containing itself overflows the stack; concurrent map access).  Behaviours are therefore executed by CHILD processes,
+// a batch at a time; when a child dies its batch is executed again one behaviour per process, and a behaviour that kills
+// its process is written to the trace as the observation {"ev": "Crash"} - every other behaviour is still observed and
+// checked.  (The child is this binary: `<sub> <trace part> <stats part> <first id>` with the batch as JSON on stdin.)
+
+type partStats struct {
+	Stats   map[string]int `json:"stats"`
+	Samples []interface{}  `json:"samples"`
+	Seen    []string       `json:"seen"`
+}
+
+// CloseChild: like Close, and the keys of the distinct counters are kept so that the parent can merge them exactly.
+func (t *TraceWriter) CloseChild(statsPath string) {
+	t.w.Flush()
+	t.f.Close()
+	t.Stats["events"] = t.Events
+	t.Stats["traces"] = t.Traces
+	seen := []string{}
+	for k := range t.seen {
+		seen = append(seen, k)
+	}
+	b, _ := json.Marshal(partStats{Stats: t.Stats, Samples: t.Samples, Seen: seen})
+	if err := os.WriteFile(statsPath, b, 0644); err != nil {
+		fatal(err)
+	}
+}
+
+func (t *TraceWriter) absorb(part, stats string) {
+	b, err := os.ReadFile(part)
+	if err != nil {
+		fatal(err)
+	}
+	t.w.Write(b)
+	var ps partStats
+	sb, err := os.ReadFile(stats)
+	if err != nil {
+		fatal(err)
+	}
+	if err := json.Unmarshal(sb, &ps); err != nil {
+		fatal(err)
+	}
+	distinct := map[string]bool{}
+	for _, k := range ps.Seen {
+		c := k[:strings.IndexByte(k, 0)]
+		distinct[c] = true
+		if !t.seen[k] {
+			t.seen[k] = true
+			t.Stats[c]++
+		}
+	}
+	for k, v := range ps.Stats {
+		switch {
+		case k == "events":
+			t.Events += v
+		case k == "traces":
+			t.Traces += v
+		case !distinct[k]:
+			t.Stats[k] += v
+		}
+	}
+	for _, s := range ps.Samples {
+		t.Sample(s)
+	}
+}
+
+// runContained executes items (one JSON value per behaviour, ids first, first+1, ...) through child processes.
+func runContained(tw *TraceWriter, sub string, items []json.RawMessage, first int, batch int) {
+	dir, err := os.MkdirTemp(filepath.Dir(tw.f.Name()), "parts")
+	if err != nil {
+		fatal(err)
+	}
+	defer os.RemoveAll(dir)
+	var run func(lo, hi int)
+	run = func(lo, hi int) { // items[lo:hi]
+		part, stats := filepath.Join(dir, "part.ndjson"), filepath.Join(dir, "part.json")
+		os.Remove(part)
+		os.Remove(stats)
+		in, _ := json.Marshal(items[lo:hi])
+		cmd := exec.Command(os.Args[0], sub, part, stats, strconv.Itoa(first+lo))
+		cmd.Stdin = bytes.NewReader(in)
+		cmd.Env = os.Environ()
+		var errb bytes.Buffer
+		cmd.Stderr = &errb
+		err := cmd.Run()
+		if err == nil {
+			tw.absorb(part, stats)
+			return
+		}
+		msg := errb.String()
+		died := strings.Contains(msg, "fatal error:") || strings.Contains(msg, "goroutine stack exceeds") || strings.Contains(msg, "signal SIGSEGV")
+		if !died {
+			// the harness itself gave up (its own fatal()): machinery failure, not an observation
+			fmt.Fprint(os.Stderr, msg)
+			fatal(fmt.Sprintf("%s child failed: %v", sub, err))
+		}
+		if hi-lo > 1 {
+			mid := (lo + hi) / 2
+			run(lo, mid)
+			run(mid, hi)
+			return
+		}
+		line := ""
+		for _, l := range strings.Split(msg, "\n") {
+			if strings.Contains(l, "fatal error:") || strings.Contains(l, "goroutine stack exceeds") {
+				line = strings.TrimSpace(l)
+				break
+			}
+		}
+		tw.Traces++
+		tw.Stats["behaviours_that_killed_the_process"]++
+		tw.Emit(Rec{"ev": "Crash", "trace": first + lo, "msg": line, "behaviour": string(items[lo])})
+	}
+	for lo := 0; lo < len(items); lo += batch {
+		hi := lo + batch
+		if hi > len(items) {
+			hi = len(items)
+		}
+		run(lo, hi)
+	}
+}
